@@ -222,6 +222,9 @@ Section Instantiation.
   Lemma code_conn_sym x y : GB x -> code_conn x y -> code_conn y x.
   Proof. apply (conn_sym href href nbA pinsB GA GB g_pins g_nb sym1 sym2). Qed.
 
+  Lemma step1_good b b' : GB b -> step1 href href nbA pinsB b b' -> GB b'.
+  Proof. intros G (a & Ha & Hb). exact (g_nb a b' (g_pins b a G Ha) Hb). Qed.
+
   (* one step of the code is a crossing (in either direction) or stays on the wire *)
   Lemma step1_hlink b b' :
     GB b -> step1 href href nbA pinsB b b' -> b' = b \/ hlink s b b' \/ hlink s b' b.
@@ -232,7 +235,8 @@ Section Instantiation.
     - destruct Hb as [Hb|Hb].
       + apply inner_spec in Hb as (w' & c' & Hw' & Hc' & ->). apply (wc_in s C) in Hi.
         assert (w' = w) by congruence. subst. assert (c' = c) by congruence. subst. left. reflexivity.
-      + apply outer_spec in Hb as (ow & oc & How & Hoc & ->). apply (wc_out s C) in How.
+      + destruct p as [|x' p']; [rewrite outer_root in Hb; discriminate|].
+        apply outer_spec in Hb as (ow & oc & How & Hoc & ->). apply (wc_out s C) in How.
         right. right. apply hlink_intro with i; try assumption. apply (wc_in s C). assumption.
     - destruct Hb as [Hb|Hb].
       + apply inner_spec in Hb as (w' & c' & Hw' & Hc' & ->).
@@ -241,54 +245,35 @@ Section Instantiation.
         assert (ow = w) by congruence. subst. assert (oc = c) by congruence. subst. left. reflexivity.
   Qed.
 
-  Lemma code_conn_spec x y : GB x -> code_conn x y -> Conn.conn s x y.
+  Lemma code_conn_spec x y : GB x -> code_conn x y -> Conn.conn s t x y.
   Proof.
     intros G H. revert G. unfold code_conn, HierClosure.conn in H.
     induction H as [x y H|x|x y z H1 IH1 H2 IH2]; intro G.
-    - destruct (step1_hlink x y G H) as [->|[L|L]].
+    - pose proof (step1_good x y G H) as Gy.
+      destruct (step1_hlink x y G H) as [->|[L|L]].
       + apply rst_refl.
-      + apply rst_step. exact L.
-      + apply rst_sym. apply rst_step. exact L.
+      + apply rst_step. split; [exact G|]. split; [exact Gy|exact L].
+      + apply rst_sym. apply rst_step. split; [exact Gy|]. split; [exact G|exact L].
     - apply rst_refl.
     - apply rst_trans with y; [apply IH1; exact G|apply IH2]. apply (code_conn_good x y G H1).
   Qed.
 
-  (* a crossing keeps us inside the design, in both directions *)
-  Lemma hlink_good_fwd b b' : hlink s b b' -> GB b -> GB b' /\ step1 href href nbA pinsB b b'.
+  (* a crossing between occurrences is a step of the code *)
+  Lemma hlink_step b b' : hlink s b b' -> GB b -> step1 href href nbA pinsB b b'.
   Proof.
     intros L G. destruct L as [n i hinst w c w' c' Hi Hc Hw' Hc'].
     destruct G as (w0 & c0 & x & p & E & Hp & Hcx & Hw). inversion E; subst w0 c0 hinst. clear E.
     destruct (wc_local_out s C n i w c Hi Hc) as (d & q & d2 & Hd & Hn & Hq & Hqd & Hnr).
-    assert (Ha : In (i :: q :: n :: x :: p) (pinsB (w :: c :: x :: p))).
-    { apply in_pinsB. right. exists n, i, q. auto. }
-    assert (Hb : In (w' :: c' :: n :: x :: p) (nbA (i :: q :: n :: x :: p))).
-    { apply in_nbA. left. apply inner_spec. exists w', c'. auto. }
-    assert (G : GB (w :: c :: x :: p)) by (exists w, c, x, p; auto).
-    split.
-    - apply (g_nb _ _ (g_pins _ _ G Ha) Hb).
-    - exists (i :: q :: n :: x :: p). split; assumption.
+    exists (i :: q :: n :: x :: p). split.
+    - apply in_pinsB. right. exists n, i, q. auto.
+    - apply in_nbA. left. apply inner_spec. exists w', c'. auto.
   Qed.
 
-  Lemma hlink_good_bwd b b' : hlink s b b' -> GB b' -> GB b.
-  Proof.
-    intros L G. destruct L as [n i hinst w c w' c' Hi Hc Hw' Hc'].
-    destruct G as (w0 & c0 & x & p & E & Hp & Hcx & Hw). inversion E; subst w0 c0 x p. clear E.
-    destruct (wc_local_out s C n i w c Hi Hc) as (d & q & d2 & Hd & Hn & Hq & Hqd & Hnr).
-    inversion Hp as [E|c1 x0 p0 Hp0 Hch E]; subst.
-    - congruence.
-    - apply sub_par in Hch as (d0 & Hx0 & Hnd0). assert (d0 = d) by congruence. subst.
-      exists w, c, x0, p0. repeat split; try assumption.
-      + apply cables_of_par. eauto.
-      + apply kids_par. assumption.
-  Qed.
-
-  Lemma spec_code_conn x y : Conn.conn s x y -> (GB x \/ GB y) -> GB x /\ GB y /\ code_conn x y.
+  Lemma spec_code_conn x y : Conn.conn s t x y -> (GB x \/ GB y) -> GB x /\ GB y /\ code_conn x y.
   Proof.
     intro H. unfold Conn.conn in H.
-    induction H as [x y L|x|x y H IH|x y z H1 IH1 H2 IH2]; intro G.
-    - assert (Gx : GB x) by (destruct G as [G|G]; [exact G|exact (hlink_good_bwd x y L G)]).
-      destruct (hlink_good_fwd x y L Gx) as [Gy St].
-      split; [exact Gx|]. split; [exact Gy|]. apply rt_step. exact St.
+    induction H as [x y (Gx & Gy & L)|x|x y H IH|x y z H1 IH1 H2 IH2]; intro G.
+    - split; [exact Gx|]. split; [exact Gy|]. apply rt_step. exact (hlink_step x y L Gx).
     - assert (Gx : GB x) by (destruct G; assumption).
       split; [exact Gx|]. split; [exact Gx|]. apply rt_refl.
     - destruct IH as (Gx & Gy & Hc); [tauto|].
@@ -303,14 +288,34 @@ Section Instantiation.
   Qed.
 
   (* on occurrences the code's relation is the specification *)
-  Theorem code_conn_iff_conn x y : GB x -> (code_conn x y <-> Conn.conn s x y).
+  Theorem code_conn_iff_conn x y : GB x -> (code_conn x y <-> Conn.conn s t x y).
   Proof.
     intro G. split; [apply code_conn_spec; exact G|].
     intro H. apply (spec_code_conn x y H). left. exact G.
   Qed.
 
-  Lemma conn_good x y : GB x -> Conn.conn s x y -> GB y.
+  Lemma conn_good x y : GB x -> Conn.conn s t x y -> GB y.
   Proof. intros G H. apply (spec_code_conn x y H). left. exact G. Qed.
+
+  (* with a standalone top instance a crossing that touches the design lies inside it, so the
+     restriction of [conn] to occurrences is vacuous *)
+  Lemma hlink_occ_standalone b b' :
+    par s RChildren t = None -> hlink s b b' -> (GB b \/ GB b') -> hlink_occ s t b b'.
+  Proof.
+    intros Htop L G.
+    assert (Gb : GB b).
+    { destruct G as [G|G]; [exact G|]. destruct L as [n i hinst w c w' c' Hi Hc Hw' Hc'].
+      destruct G as (w0 & c0 & x & p & E & Hp & Hcx & Hw). inversion E; subst w0 c0 x p. clear E.
+      destruct (wc_local_out s C n i w c Hi Hc) as (d & q & d2 & Hd & Hn & Hq & Hqd & Hnr).
+      inversion Hp as [E|c1 x0 p0 Hp0 Hch E]; subst.
+      - congruence.
+      - apply sub_par in Hch as (d0 & Hx0 & Hnd0). assert (d0 = d) by congruence. subst.
+        exists w, c, x0, p0. repeat split; try assumption.
+        + apply cables_of_par. eauto.
+        + apply kids_par. assumption. }
+    split; [exact Gb|]. split; [|exact L]. exact (step1_good b b' Gb (hlink_step b b' L Gb)).
+  Qed.
+
   (* ---- the query ---- *)
   Hypothesis Hroot : is_root s t.
 
@@ -335,7 +340,7 @@ Section Instantiation.
   Theorem get_hwires_ALL_class : forall n U x,
     acyclic s -> top s n = Some t -> all_hwires s n = Some U -> GB x ->
     exists l, get_hwires_ALL s (pin_weight s U) x = Some l /\
-              (forall b, In b l <-> Conn.conn s x b).
+              (forall b, In b l <-> Conn.conn s t x b).
   Proof.
     intros n U x A Ht HU G.
     destruct (all_hwires_spec s n t I1 K A Ht) as (U' & EU & NU & SU).
@@ -364,7 +369,7 @@ Section Instantiation.
 
   (* two members of one net give the same answer *)
   Theorem get_hwires_ALL_symmetric : forall n U x y,
-    acyclic s -> top s n = Some t -> all_hwires s n = Some U -> GB x -> Conn.conn s x y ->
+    acyclic s -> top s n = Some t -> all_hwires s n = Some U -> GB x -> Conn.conn s t x y ->
     exists lx ly, get_hwires_ALL s (pin_weight s U) x = Some lx /\
                   get_hwires_ALL s (pin_weight s U) y = Some ly /\
                   (forall b, In b lx <-> In b ly).
